@@ -51,3 +51,66 @@ Theorem C02_input_space_le4 :
   map (fun n => length (closed_graphs n)) [1; 2; 3; 4]%nat = [1; 2; 60; 3816]%nat.
 Proof. exact closed_counts. Qed.
 Print Assumptions C02_input_space_le4.
+
+(* ---------- the edits never abort, for ALL graphs / hierarchies (Model/Total.v, Model/Total2.v) ----------
+   The models return an explicit result for every exception the Python can raise.  Under the preconditions
+   the callers establish, every edit returns Ok.  The preconditions of the two hierarchy-level edits are
+   booleans which the correspondence check evaluates on every call the pipeline makes. *)
+From V Require Import Model.Edits2 Model.LoopEdit Model.LoopSpec Model.Extract Model.CbHier Model.Total Model.Total2.
+
+(* header unification on a flat graph: distinct existing predecessors, names the predecessors do not
+   bear, one name per distinct successor in S of each predecessor *)
+Theorem C02_header_unification_total :
+  forall new var S g preds names cls,
+    NoDup preds ->
+    (forall p, In p preds -> efind g p <> None) ->
+    (forall a, In a names -> ~ In a preds) ->
+    (need S g preds <= length names)%nat ->
+    exists g', insert_cb g new var preds S names cls = Ok g'.
+Proof. exact insert_cb_total. Qed.
+Print Assumptions C02_header_unification_total.
+
+(* loop rotation: the loop has an exit, the processed blocks are distinct, exist and carry no value table,
+   one fresh name per arc that leaves the loop or goes back to a header *)
+Theorem C02_loop_rotation_total :
+  forall g hd headers exits todo unified header_tbl isback latch sexit ev bv names,
+    exits <> [] ->
+    NoDup todo ->
+    (forall p, In p todo -> exists b, efind g p = Some b /\ nonbranch b) ->
+    (forall a, In a names -> ~ In a todo) ->
+    (forall c, l_headers c = headers -> l_exits c = exits -> l_isback c = isback -> (needl c g todo <= length names)%nat) ->
+    exists g', loop_rotate g hd headers exits todo unified header_tbl isback latch sexit ev bv names = Ok g'.
+Proof. exact loop_rotate_total. Qed.
+Print Assumptions C02_loop_rotation_total.
+
+(* update_exiting: a proper chain of exiting blocks (each the child of the region above it) *)
+Theorem C02_update_exiting_total :
+  forall a b f h e, chain_ok f h e = true -> exists h', upd_exiting f h e a b = XOk h'.
+Proof. intros a b f h e H. destruct (upd_exiting_total a b f h e H) as [h' [E _]]. eauto. Qed.
+Print Assumptions C02_update_exiting_total.
+
+(* region extraction at any level *)
+Theorem C02_region_extraction_total :
+  forall h lvl blocks entries hd ex rk rname,
+    pre_extract h lvl entries ex = true -> exists h', extract h lvl blocks entries hd ex rk rname = XOk h'.
+Proof. exact extract_total. Qed.
+Print Assumptions C02_region_extraction_total.
+
+(* header unification at any level, predecessors of any kind *)
+Theorem C02_header_unification_any_level_total :
+  forall h lvl new var preds Ss names,
+    pre_cbh h lvl preds Ss names = true -> exists h', insert_cb_h h lvl new var preds Ss names = XOk h'.
+Proof. exact insert_cb_h_total. Qed.
+Print Assumptions C02_header_unification_any_level_total.
+
+(* non-vacuity: the preconditions hold on concrete hierarchies (a region predecessor with its exiting
+   block; an entry of a loop) *)
+Example C02_preconditions_hold_somewhere :
+  (pre_cbh [ mkNode 1 0 [] [] (KRegion 1 0 0 [5; 20; 7; 8] 0 true);
+            mkNode 5 1 [7; 8] [] (KOrig 1);
+            mkNode 20 1 [8] [] (KRegion 2 21 21 [21] 1 true);
+            mkNode 21 20 [21; 8] [21] (KOrig 1);
+            mkNode 7 1 [] [] (KOrig 1); mkNode 8 1 [] [] (KOrig 1) ] 1 [5; 20] [7; 8] [30; 31; 32] = true /\
+   pre_extract [ mkNode 1 0 [] [] (KRegion 1 0 0 [5; 6; 7] 0 true);
+                mkNode 5 1 [6] [] (KOrig 1); mkNode 6 1 [6; 7] [6] (KOrig 1); mkNode 7 1 [] [] (KOrig 1) ] 1 [5] 6 = true)%Z.
+Proof. split; vm_compute; reflexivity. Qed.
